@@ -314,8 +314,48 @@ theorem handle_frame (st : St) (r : Req) :
 
 /-! ### checkAuth: frame -/
 
+theorem sessionExpired_iff (now : Nat) (s : Session) : sessionExpired now s = true ↔ now > s.validUntil := by
+  simp [sessionExpired, sessionExpiredStrict]
+
+theorem findSession_id {ss : List Session} {id : Nat} {s : Session} (h : findSession ss id = some s) : s.id = id := by
+  unfold findSession at h
+  have := List.find?_some h
+  simpa using this
+
+/-- `checkSessionCookie` with the regenerated statement sequence unfolded: unknown or expired ⇒ nothing
+    (state untouched), otherwise the session is refreshed to now + TTL and its token returned. -/
+theorem checkSessionCookie_eq (st : St) (r : Req) :
+    checkSessionCookie st r =
+      match r.cookie with
+      | none => (st, none)
+      | some id =>
+        match findSession st.sessions id with
+        | none => (st, none)
+        | some s =>
+          if st.now > s.validUntil then (st, none)
+          else ({ st with sessions := refreshSession st.sessions id (st.now + sessionTTL) }, some s.tok) := by
+  unfold checkSessionCookie
+  cases hc : r.cookie with
+  | none => rfl
+  | some id =>
+    simp only []
+    cases hs : findSession st.sessions id with
+    | none => rfl
+    | some s =>
+      have hid := findSession_id hs
+      simp only [checkSessionCookieSteps, runCookieSteps, hid]
+      by_cases hexp : st.now > s.validUntil
+      · rw [(sessionExpired_iff st.now s).mpr hexp]
+        simp [hexp]
+      · have : sessionExpired st.now s = false := by
+          cases hse : sessionExpired st.now s with
+          | false => rfl
+          | true => exact absurd ((sessionExpired_iff st.now s).mp hse) hexp
+        rw [this]
+        simp [hexp]
+
 theorem checkSessionCookie_none {st st' : St} {r : Req} (h : checkSessionCookie st r = (st', none)) : st' = st := by
-  unfold checkSessionCookie at h
+  rw [checkSessionCookie_eq] at h
   split at h
   · simp at h; exact h.symm
   split at h
@@ -327,7 +367,7 @@ theorem checkSessionCookie_none {st st' : St} {r : Req} (h : checkSessionCookie 
 theorem checkSessionCookie_some {st st' : St} {r : Req} {t : Token} (h : checkSessionCookie st r = (st', some t)) :
     ∃ id s, r.cookie = some id ∧ findSession st.sessions id = some s ∧ ¬ st.now > s.validUntil ∧ t = s.tok ∧
       st' = { st with sessions := refreshSession st.sessions id (st.now + sessionTTL) } := by
-  unfold checkSessionCookie at h
+  rw [checkSessionCookie_eq] at h
   split at h
   · simp at h
   rename_i id hid
@@ -783,5 +823,196 @@ theorem cfg_run_subset (h : List Event) (st : St) (hh : ∀ e ∈ h, e.isSetKeys
     simp only [run, List.foldl] at hx
     have := ih (step st e) (fun e' he' => hh e' (by simp [he'])) x hx
     exact cfg_step_subset e (hh e (by simp)) x this
+
+/-! ### Finality of expiry and reset: a dead session stays dead -/
+
+theorem SessionDead_checkAuth {st : St} {id : Nat} (r : Req) (ar : Bool) (h : SessionDead st id) :
+    SessionDead (checkAuth st r ar).st id := by
+  rcases checkAuth_st st r ar with hs | ⟨id', s0, _, hf, hlive, hs, _⟩ | ⟨t, _, _, hs, _⟩
+  · rw [hs.1]; exact h
+  · rw [hs]
+    refine ⟨h.1, ?_⟩
+    intro s hs' hid
+    simp only [refreshSession, List.mem_map] at hs'
+    obtain ⟨a, ha, heq⟩ := hs'
+    by_cases e : a.id = id'
+    · -- the refreshed session is the one that was found live under id'; it cannot be the dead one
+      exfalso
+      have e' : (a.id == id') = true := by simpa using e
+      rw [if_pos e'] at heq
+      have hsid : s.id = a.id := by rw [← heq]
+      have hid' : id' = id := by rw [← e, ← hsid, hid]
+      have hmem : s0 ∈ st.sessions := by
+        unfold findSession at hf
+        exact List.mem_of_find?_eq_some hf
+      have h0 : s0.id = id := by rw [findSession_id hf, hid']
+      exact hlive (h.2 s0 hmem h0)
+    · have e' : (a.id == id') = false := by simpa using e
+      rw [if_neg (by simp [e'])] at heq
+      subst heq
+      exact h.2 a ha hid
+  · rw [hs]
+    obtain ⟨h1, h2⟩ := h
+    refine ⟨by simp [createSession]; omega, ?_⟩
+    intro s hs' hid
+    simp [createSession] at hs' ⊢
+    rcases hs' with rfl | hs'
+    · simp at hid; omega
+    · exact h2 s hs' hid
+
+theorem SessionDead_handle {st : St} {id : Nat} (r : Req) (h : SessionDead st id) : SessionDead (handle st r).1 id := by
+  rcases handle_frame st r with hs | ⟨_, ar, hs, _⟩
+  · rw [hs.1]; exact h
+  · rw [hs]; exact SessionDead_checkAuth r ar h
+
+theorem SessionDead_updateAPIKeys {st : St} {id : Nat} (h : SessionDead st id) : SessionDead (updateAPIKeys st) id := by
+  obtain ⟨f1, f2, f3, _, _⟩ := updateAPIKeys_frame st
+  unfold SessionDead
+  rw [f1, f2, f3]
+  exact h
+
+theorem SessionDead_step {st : St} {id : Nat} (e : Event) (h : SessionDead st id) : SessionDead (step st e) id := by
+  cases e with
+  | setKeys cfg => exact SessionDead_updateAPIKeys (st := { st with cfg := cfg }) h
+  | configChange => exact SessionDead_updateAPIKeys h
+  | setDev b => exact SessionDead_updateAPIKeys (st := { st with dev := b }) h
+  | setAuthSet b => exact h
+  | advance d =>
+    refine ⟨h.1, ?_⟩
+    intro s hs hid
+    have := h.2 s hs hid
+    simp only [step]
+    omega
+  | clean =>
+    refine ⟨h.1, ?_⟩
+    intro s hs hid
+    simp only [step, cleanSessions, List.mem_filter] at hs
+    exact h.2 s hs.1 hid
+  | logout id' =>
+    refine ⟨h.1, ?_⟩
+    intro s hs hid
+    simp only [step, deleteSession, List.mem_filter] at hs
+    exact h.2 s hs.1 hid
+  | request r => exact SessionDead_handle r h
+
+theorem SessionDead_run {id : Nat} (h : List Event) (st : St) (hst : SessionDead st id) : SessionDead (run st h) id := by
+  induction h generalizing st with
+  | nil => exact hst
+  | cons e rest ih =>
+    simp only [run, List.foldl]
+    exact ih _ (SessionDead_step e hst)
+
+/-- The cookie of a dead session is treated like an unknown one: nothing is granted, nothing is refreshed. -/
+theorem SessionDead_cookie {st : St} {id : Nat} (h : SessionDead st id) (r : Req) (hc : r.cookie = some id) :
+    checkSessionCookie st r = (st, none) := by
+  rw [checkSessionCookie_eq]
+  simp only [hc]
+  cases hf : findSession st.sessions id with
+  | none => rfl
+  | some s =>
+    have hmem : s ∈ st.sessions := by
+      unfold findSession at hf
+      exact List.mem_of_find?_eq_some hf
+    simp [h.2 s hmem (findSession_id hf)]
+
+theorem findSession_none {ss : List Session} {id : Nat} (h : findSession ss id = none) : ∀ s ∈ ss, s.id ≠ id := by
+  unfold findSession at h
+  rw [List.find?_eq_none] at h
+  intro s hs
+  simpa using h s hs
+
+/-- Session ids are handed out once: pairwise distinct and below `nextId`. -/
+def DistinctIds (st : St) : Prop :=
+  st.sessions.Pairwise (fun a b => a.id ≠ b.id) ∧ ∀ s ∈ st.sessions, s.id < st.nextId
+
+theorem pairwise_ids_unique {ss : List Session} (h : ss.Pairwise (fun a b => a.id ≠ b.id)) :
+    ∀ a ∈ ss, ∀ b ∈ ss, a.id = b.id → a = b := by
+  induction ss with
+  | nil => intro a ha; simp at ha
+  | cons x rest ih =>
+    rw [List.pairwise_cons] at h
+    intro a ha b hb hab
+    simp only [List.mem_cons] at ha hb
+    rcases ha with rfl | ha <;> rcases hb with rfl | hb
+    · rfl
+    · exact absurd hab (h.1 b hb)
+    · exact absurd hab.symm (h.1 a ha)
+    · exact ih h.2 a ha b hb hab
+
+theorem DistinctIds_checkAuth {st : St} (r : Req) (ar : Bool) (h : DistinctIds st) : DistinctIds (checkAuth st r ar).st := by
+  rcases checkAuth_st st r ar with hs | ⟨id', s0, _, _, _, hs, _⟩ | ⟨t, _, _, hs, _⟩
+  · rw [hs.1]; exact h
+  · rw [hs]
+    constructor
+    · simp only [refreshSession]
+      rw [List.pairwise_map]
+      refine h.1.imp ?_
+      intro a b hab
+      by_cases ea : (a.id == id') = true <;> by_cases eb : (b.id == id') = true <;> simp [ea, eb, hab]
+    · intro s hs'
+      obtain ⟨s1, hs1, _, e2, _⟩ := mem_refreshSession hs'
+      simp only
+      rw [e2]
+      exact h.2 s1 hs1
+  · rw [hs]
+    constructor
+    · simp only [createSession]
+      rw [List.pairwise_cons]
+      refine ⟨?_, h.1⟩
+      intro b hb
+      have := h.2 b hb
+      simp only
+      omega
+    · intro s hs'
+      simp [createSession] at hs' ⊢
+      rcases hs' with rfl | hs'
+      · simp
+      · have := h.2 s hs'; omega
+
+theorem DistinctIds_step {st : St} (e : Event) (h : DistinctIds st) : DistinctIds (step st e) := by
+  cases e with
+  | setKeys cfg =>
+    obtain ⟨f1, f2, _⟩ := updateAPIKeys_frame { st with cfg := cfg }
+    unfold DistinctIds; simp only [step]; rw [f1, f2]; exact h
+  | configChange =>
+    obtain ⟨f1, f2, _⟩ := updateAPIKeys_frame st
+    unfold DistinctIds; simp only [step]; rw [f1, f2]; exact h
+  | setDev b =>
+    obtain ⟨f1, f2, _⟩ := updateAPIKeys_frame { st with dev := b }
+    unfold DistinctIds; simp only [step]; rw [f1, f2]; exact h
+  | setAuthSet b => exact h
+  | advance d => exact h
+  | clean =>
+    constructor
+    · simp only [step, cleanSessions]; exact h.1.filter _
+    · intro s hs
+      simp only [step, cleanSessions, List.mem_filter] at hs
+      exact h.2 s hs.1
+  | logout id =>
+    constructor
+    · simp only [step, deleteSession]; exact h.1.filter _
+    · intro s hs
+      simp only [step, deleteSession, List.mem_filter] at hs
+      exact h.2 s hs.1
+  | request r =>
+    simp only [step]
+    rcases handle_frame st r with hs | ⟨_, ar, hs, _⟩
+    · rw [hs.1]; exact h
+    · rw [hs]; exact DistinctIds_checkAuth r ar h
+
+theorem DistinctIds_run (h : List Event) (st : St) (hst : DistinctIds st) : DistinctIds (run st h) := by
+  induction h generalizing st with
+  | nil => exact hst
+  | cons e rest ih =>
+    simp only [run, List.foldl]
+    exact ih _ (DistinctIds_step e hst)
+
+theorem DistinctIds_init : DistinctIds St.init := by
+  constructor
+  · simp [St.init]
+  · intro s hs; simp [St.init] at hs
+
+theorem run_append (st : St) (h h' : List Event) : run st (h ++ h') = run (run st h) h' := by
+  simp [run, List.foldl_append]
 
 end PB.Api
